@@ -40,7 +40,7 @@ RULE = (
     "reference an inner that has been running since an earlier instant is replaced (its subscription is closed because a newer inner arrived); distinct = the full descriptor; cases_with_ties counts executions "
     "in which the oracle had to branch over simultaneous events"
 )
-BUDGET = {"quick": 180.0, "thorough": 2400.0}
+BUDGET = {"quick": 300.0, "thorough": 2400.0}
 
 OPS = ("switch_latest", "switch_map", "switch_map_default", "switch_map_indexed", "flat_map_latest")
 RESOLVED = ("switch_latest", "switch_map_default")
